@@ -52,6 +52,11 @@ def plan(tier: str, seed: int):
 def _plan_nothreads(tier: str, seed: int):
     rounds = 1 if tier == "quick" else 6
     return _plan(tier, seed) + [
+        # under NUMBA_DISABLE_JIT=1 (numpy scalar arithmetic in the storage
+        # types instead of machine integers)
+        {"name": "py0", "engine": "py", "timeout": 3000,
+         "args": {"mode": "decode", "n": 60 if tier == "quick" else 1500,
+                  "part": 0, "parts": 1}}] + [
         {"name": f"suite{i}", "engine": "jit", "timeout": 3000,
          "args": {"mode": "suite", "tests": SUITE_TESTS,
                   "domains": SUITE_DOMAINS, "rounds": rounds}}
@@ -321,7 +326,7 @@ def decode_shard(ctx, count, part, parts):
     # decoded plan must be mutually consistent and may contain no game more
     # often than the permutation does (index arithmetic that is wrong for
     # isolated team counts only)
-    for n in range(17 + part, 261, parts):
+    for n in range(17 + part, 261 if ctx.engine != "py" else 41, parts):
         # (each pair once with a random orientation; the search space
         # object itself takes seconds to build for such n)
         q = []
